@@ -148,6 +148,48 @@ func init() {
 			case "parser":
 				e["obs"] = obsParser(c05cur.parser, text)
 				e["fresh"] = obsParser(parsers.NewExpressionParser(), text)
+			case "ctor": // the constructors that take the text / the tokens: the same as constructing and then setting
+				oc := func(c *calculator.ExpressionCalculator, err error) []any {
+					if err != nil {
+						return []any{"error", errCode(err)}
+					}
+					var res *variants.Variant
+					if o, _ := guarded(func() { res, err = c.EvaluateUsingVariables(c05vars()) }); o != "ok" {
+						return []any{"panic"}
+					}
+					if err != nil {
+						return []any{"error", errCode(err)}
+					}
+					if res == nil {
+						return []any{"nil"}
+					}
+					return []any{"ok", int(res.Type()), cl(res.String())}
+				}
+				var c1, c2, c3 *calculator.ExpressionCalculator
+				var e1, e3 error
+				guarded(func() { c1, e1 = calculator.ExpressionCalculatorFromExpression(text) })
+				guarded(func() { c2 = calculator.ExpressionCalculatorFromTokens(lexTokens(text)) })
+				guarded(func() { c3 = calculator.NewExpressionCalculator(); e3 = c3.SetExpression(text) })
+				var t1, t3 *mustache.MustacheTemplate
+				var te1, te3 error
+				guarded(func() { t1, te1 = mustache.NewMustacheTemplateFromString(text) })
+				guarded(func() { t3 = mustache.NewMustacheTemplate(); te3 = t3.SetTemplate(text) })
+				tr := func(t *mustache.MustacheTemplate, err error) []any {
+					if err != nil || t == nil {
+						return []any{"error"}
+					}
+					var out string
+					if o, _ := guarded(func() { out, err = t.EvaluateWithVariables(map[string]string{"a": "1", "NAME": "x"}) }); o != "ok" {
+						return []any{"panic"}
+					}
+					return []any{"ok", out}
+				}
+				second := oc(c2, nil)
+				if e3 != nil { // tokens of a text that does not parse: the constructor has no way to report it
+					second = oc(c3, e3)
+				}
+				e["obs"] = []any{oc(c1, e1), second, tr(t1, te1)}
+				e["fresh"] = []any{oc(c3, e3), oc(c3, e3), tr(t3, te3)}
 			case "parsertok":
 				e["obs"] = obsParserTokens(c05cur.parser, text)
 				e["fresh"] = obsParserTokens(parsers.NewExpressionParser(), text)
@@ -236,7 +278,7 @@ func init() {
 			return e
 		}
 	}
-	for _, w := range []string{"parser", "calculator", "template", "parsertok", "parserexpr", "fnop", "calceval", "setops", "reeval"} {
+	for _, w := range []string{"ctor", "parser", "calculator", "template", "parsertok", "parserexpr", "fnop", "calceval", "setops", "reeval"} {
 		c05exec[w] = mk(w)
 	}
 	c05extra = append(c05extra, genC05b)
@@ -286,6 +328,9 @@ func genC05b(g *Gen) {
 			}
 			g.Run("reused "+what+": random histories", seg)
 		}
+	}
+	for _, x := range append(append([]string{}, c05exprPool...), c05tmplPool...) {
+		g.Run("constructors that take the text or the tokens", []Ev{{"op": "reuse", "what": "ctor", "input": cps(x), "first": true}})
 	}
 	// long-lived instances: hundreds of rejected inputs, then accepted ones (the N-th use behaves like the first)
 	bad := []string{strings.Repeat("(", 45) + "1 +", strings.Repeat("{{#a}}", 40), strings.Repeat("f(", 30) + "1, ", "(((1 +", "2 * (3 + ", "f(1, (2", "a[", "((((((((", "NOT", "Min(((a)", "{{#a}}{{#a}}x", "{{#a}}", "{{/a}}", "{{a"}
